@@ -3,7 +3,7 @@
 From Coq Require Import List Arith Bool Permutation.
 Import ListNotations.
 Require Import Fggs.Model.Semiring Fggs.Model.Replace Fggs.Proofs.Replace_spec Fggs.Proofs.Replace_model_spec
-  Fggs.Proofs.Replace_confl Fggs.Proofs.Replace_derive_main Fggs.Proofs.Replace_corollaries Fggs.Proofs.Replace_examples Fggs.Proofs.Replace_iso.
+  Fggs.Proofs.Replace_confl Fggs.Proofs.Replace_derive_main Fggs.Proofs.Replace_corollaries Fggs.Proofs.Replace_examples Fggs.Proofs.Replace_iso Fggs.Proofs.Replace_dasst.
 
 (** replace_edge on a well-formed host / edge / replacement whose externals are pairwise distinct:
     returns; the result satisfies the replacement specification (exactly the edge removed, rest and
@@ -128,3 +128,20 @@ Theorem C15_two_orders_isomorphic : forall L t nx l1 l2 s1 s2,
   graph_iso (rs_graph s1) (rs_graph s2) (Rn (rs_nnames s1) (rs_nnames s2)) (Re (rs_enames s1) (rs_enames s2)).
 Proof. exact two_orders_isomorphic. Qed.
 Print Assumptions C15_two_orders_isomorphic.
+
+(** the assignment is the derived one: after ANY sequence of steps every value of a named node is
+    the value the denotational [derived_asst] gives to that name; in particular for derive() *)
+Theorem C15_run_assignment : forall L t nx l s,
+  wf_dtreeb L t = true -> functionalb L = true ->
+  run l (init_state t nx) = Ok s ->
+  forall v x y, In (v, x) (rs_nnames s) -> aget node_eqb (rs_asst s) v = Some y -> In (x, y) (derived_asst t).
+Proof. exact run_asst_derived. Qed.
+Print Assumptions C15_run_assignment.
+
+Theorem C15_derive_assignment : forall L t nx,
+  wf_dtreeb L t = true -> functionalb L = true ->
+  exists s nn en,
+    derive_model t nx = (s, None) /\ iso_via (ds_graph s) nn en (derived_graph t) /\
+    forall v x y, In (v, x) nn -> aget node_eqb (ds_asst s) v = Some y -> In (x, y) (derived_asst t).
+Proof. exact derive_asst_main. Qed.
+Print Assumptions C15_derive_assignment.
